@@ -45,6 +45,15 @@ CLAIMS = {
  "C20": ("effect analysis over access paths: writes, wipes, in-place appends and mutating library calls on memory rooted at package-level variables, outside init; capacity-safety proof obligations for appends on package-level slices; reviewed table for library calls receiving package-level pointers",
          "Structural sufficient-in-shape condition: no function outside init writes package-level memory (sync.Once excepted), appends on package-level slices always copy, package-level pointers reach only read-only library calls. Hence no shared mutable state between conversations. Races inside the runtime/crypto packages or callbacks, and sharing one Conversation between goroutines, are outside the claim.",
          "DESIGN.md §4/C20"),
+ "C07": ("transition-table extraction from the handler functions (three-valued path enumeration, optimistic on check results, nondeterministic on data-dependent branches) and exhaustive exploration of the two-party composition of the extracted table over bounded FIFO queues; call-graph/must-pass-through rules for the start triggers",
+         "Necessary condition for liveness, decided on the skeleton extracted from the current source: from every start pattern every maximal run of the two-party composition ends with both sides through akeHasFinished; start triggers reach a DH-Commit or a query; collision comparator is the specified strict comparison. The known deadlock on simultaneous start (D01) is a listed known finding. Liveness with real data and timing windows are not decided.",
+         "DESIGN.md §4/C07"),
+ "C11": ("must-pass-through of proof verification and final comparison before the success event, per-outcome path enumeration of the two final handlers, value-term/provenance checks of the secret derivation (mirrored fingerprints, session id, unmodified user secret, fresh per run) and of the compared quantities",
+         "Structural necessary conditions: success only behind verification and Rab==Pa/Pb with the specified operands; failure path reports failure and aborts; secret bound to both fingerprints (mirrored), ssid and the exact user secret and re-derived per run. The algebra (equal ⇒ success, different ⇒ failure) is not decided.",
+         "DESIGN.md §4/C11"),
+ "C12": ("state-table invariants by path enumeration of all SMP handlers (non-success paths return EXPECT1), type-directed use-after-verify gates, must-facts of each verifier (range checks and proofs with their indices), sibling agreement of otrVersion.isGroupElement implementations, nil-typestate for the SMP state, bounds facts of the TLV parsers",
+         "Structural necessary conditions: deviant or unexpected messages lead back to EXPECT1 with an abort; peer values are range- and proof-checked before any use; no nil dispatch; element counts checked; restart sends abort first. otrV2.isGroupElement accepting everything (D12) is a listed known finding. Success of a later honest run and the number theory are not decided.",
+         "DESIGN.md §4/C12"),
 }
 
 NA = {}
